@@ -234,7 +234,7 @@ static sf_count_t vio_write (const void *ptr, sf_count_t count, void *ud)
 	Fault *f = g_os->io_event (IO_WRITE, true) ;
 	if (count <= 0 || ptr == nullptr) { if (count != 0) g_os->st.odd_requests ++ ; tr_io (IO_WRITE, v->off, count, 0, 0) ; return 0 ; }
 	int64_t n = count ;
-	if (v->off + n > (int64_t) 1 << 30) { g_os->st.odd_requests ++ ; n = 0 ; }
+	if (v->off + n > (int64_t) 1 << 26) { g_os->st.odd_requests ++ ; n = 0 ; }
 	if (f)
 	{	if (f->kind == F_VIO_WRITE_ZERO) n = 0 ;
 		else if (f->kind == F_VIO_WRITE_SHORT) { int64_t k = f->arg > 0 ? f->arg : n / 2 ; if (k < n) n = k ; }
@@ -427,7 +427,7 @@ extern "C" ssize_t __wrap_write (int fd, const void *buf, size_t n)
 		return want ;
 	}
 	if (d->flags & O_APPEND) d->off = (int64_t) sf->data.size () ;
-	if (d->off + want > (int64_t) 1 << 30) { errno = EFBIG ; return -1 ; }
+	if (d->off + want > (int64_t) 1 << 26) { errno = EFBIG ; return -1 ; }
 	file_write_at (sf, d->off, buf, want) ;
 	d->off += want ;
 	return want ;
@@ -472,7 +472,7 @@ extern "C" int __wrap_ftruncate (int fd, off_t len)
 	SimFd *d = get_fd (fd) ;
 	if (!d || (d->flags & O_ACCMODE) == O_RDONLY || d->f->is_fifo) { errno = EBADF ; tr_io (IO_TRUNC, len, 0, -1, 0) ; return -1 ; }
 	if (f && (f->kind == F_FD_FTRUNC_FAIL || f->kind == F_FD_EBADF)) { errno = EIO ; tr_io (IO_TRUNC, len, 0, -1, f->kind) ; return -1 ; }
-	if (len < 0 || len > (off_t) 1 << 30) { errno = EINVAL ; g_os->st.odd_requests ++ ; return -1 ; }
+	if (len < 0 || len > (off_t) 1 << 26) { errno = EINVAL ; g_os->st.odd_requests ++ ; return -1 ; }
 	d->f->data.resize ((size_t) len, 0) ;
 	tr_io (IO_TRUNC, len, 0, 0, 0) ;
 	return 0 ;
